@@ -301,18 +301,18 @@ def f2_py(f):
 
 def val_lit(v):
   t = v[0]
-  if t == "none": return "VNone"
-  if t == "nat": return "(VNat %s)" % L.nat(v[1])
-  if t == "bool": return "(VBool %s)" % L.boolean(v[1])
-  if t == "wnd": return "(VWnd %s)" % wdesc_lit(v[1])
-  if t == "fun": return "(VFun %s)" % fcode_lit(v[1])
-  if t == "ola": return "(VOla OlaList)" if v[1] == "list" else "(VOla (OlaUser %s))" % L.nat(v[1][1])
-  if t == "opaque": return "(VOpaque %s)" % L.nat(v[1])
+  if t == "none": return "cNone"
+  if t == "nat": return "(cNat %s)" % L.nat(v[1])
+  if t == "bool": return "(cBool %s)" % L.boolean(v[1])
+  if t == "wnd": return "(cWnd %s)" % wdesc_lit(v[1])
+  if t == "fun": return "(cFun %s)" % fcode_lit(v[1])
+  if t == "ola": return "(cOla OlaList)" if v[1] == "list" else "(cOla (OlaUser %s))" % L.nat(v[1][1])
+  if t == "opaque": return "(cOpq %s)" % L.nat(v[1])
   raise ValueError(v)
 
 
 def kwl_lit(d):
-  return L.lst(["(%s, %s)" % (L.string(k), val_lit(v)) for k, v in d])
+  return L.lst(["(kv %s %s)" % (L.string(k), val_lit(v)) for k, v in d])
 
 
 class Opaque(object):
